@@ -1,6 +1,7 @@
 """C01 — Engine output equals the documented inference pipeline (DESIGN.md section 8, C01)."""
 from __future__ import annotations
 
+import json
 import math
 
 import numpy as np
@@ -406,7 +407,44 @@ def is_fragile(desc, row, o):
         o2 = run_impl(desc, [perturbed(row, up)])[0]
         if not obs_close(o, o2):
             return True
+    if sample_on_edge(desc):
+        return True
     return False
+
+
+_EDGE = {}
+
+
+def sample_on_edge(desc):
+    """a sample point of an integral defuzzifier sits (in float) on a jump of an output term - the edge of a Rectangle, a
+    vertical side of a Triangle / Trapezoid, the start of a Binary: the float midpoint `0.05` includes the edge where the exact
+    midpoint 1/20 < float(0.05) does not, so the exact model and the implementation legitimately sample different sets.
+    Perturbing the inputs (above) does not see this: it is a property of the engine, not of the row."""
+    if desc.get("exact"):
+        return False
+    k = json.dumps(desc, sort_keys=True, default=str)
+    if k not in _EDGE:
+        hit = False
+        e = G.build(desc)
+        for ov in e.output_variables:
+            r = getattr(ov.defuzzifier, "resolution", None)
+            if not r or not (math.isfinite(ov.minimum) and math.isfinite(ov.maximum)):
+                continue
+            with np.errstate(all="ignore"):
+                xs = np.asarray(fl.Op.midpoints(ov.minimum, ov.maximum, int(r)), dtype=float)
+                for t in ov.terms:
+                    try:
+                        a = np.asarray(t.membership(np.nextafter(np.nextafter(xs, -np.inf), -np.inf)), dtype=float)
+                        b = np.asarray(t.membership(xs), dtype=float)
+                        c = np.asarray(t.membership(np.nextafter(np.nextafter(xs, np.inf), np.inf)), dtype=float)
+                    except Exception:  # noqa: BLE001
+                        continue
+                    if np.any(np.abs(a - b) > 1e-6) or np.any(np.abs(c - b) > 1e-6):
+                        hit = True
+        if len(_EDGE) > 4096:
+            _EDGE.clear()
+        _EDGE[k] = hit
+    return _EDGE[k]
 
 
 def model_tiny(m):
